@@ -233,6 +233,7 @@ func main() {
 		"construct-while-use stage (in every race child): per caller value (ssh.PublicKey ed25519/rsa, *rsa.PrivateKey, ed25519.PrivateKey, PEM bytes + key line, public key + PEM for NewEncryptedSSHIdentity, X25519 identity and strings, passphrase, plugin strings) 4 goroutines construct from it again and again while 4 goroutines use siblings built earlier; the caller's value is compared with a deep copy afterwards; the EncryptedSSHIdentity values are only used through Recipient() (decrypting costs a bcrypt run)",
 		"process-wide state (GOGC, memory limit, GOMAXPROCS, environment, working directory, umask, crypto/rand.Reader, ignored signals) is snapshotted before and compared after every burst of every race child and of the library-defaults child (staggered starts 1.5 ms apart, and work factor 16 operations nested inside work factor 18 ones); goroutine and descriptor counts are violations only if they keep growing with the number of bursts",
 		"environment: for every literal setting of a variable the tree reads (mon.EnvSettings; at most 12 in quick) a short race-enabled child repeats two rounds of the standard burst with that setting added to its environment; the shared passphrase is caf\\xe9 na\\xefve in one round and ASCII in the other, and the first operations of the goroutines are forced onto the fresh scrypt / X25519 / ssh values",
+		"refused calls: 2 of 10 encrypt variations first issue an Encrypt on the shared recipients that must be refused part-way (passphrase recipient not alone, a later recipient that fails to wrap, differing label sets, no recipients), checked to return an error and write 0 bytes, then the successful call on the same goroutine; every successful file's header must hold exactly the stanza types of its own recipient list",
 		"shared lists: three []age.Identity orders of the four identities and two []age.Recipient lists, spread with ... into the calls; checked unchanged after every round that used them, plus a sequential pass",
 		"EncryptedSSHIdentity (caches the decrypted key) and plugin values are outside the property's list of types and are not exercised",
 		"decryption inputs and the check of encryption outputs come from the reference implementation (refage), validated against the CCTV vectors at start-up",
